@@ -137,6 +137,16 @@ def replay(ctx, pid, num):
                               timeout=ctx.q(900, 2400))
     if not behs:
         raise vf.ToolError("generator produced no behaviour:\n" + r["raw_tail"])
+    # plus, exhaustively, every single-action transaction from the seeded history (MaxActs = 1): this
+    # always contains "a fresh transaction that only creates a commit / a merge commit on the HIDDEN
+    # commit 5" and every other action alone in its transaction
+    small, r2 = vf.tlc_generate("MC_RepoGen", "MC_RepoGen_small", timeout=900, workers=4)
+    ctx.cov["tlc_runs"].append({"run": "MC_RepoGen_small (exhaustive single-action transactions)",
+                                "behaviours": len(small), "distinct": r2["distinct"],
+                                "wall_s": round(r2["wall"], 1), "outcome": "ok"})
+    ctx.cov["states"] += r2["distinct"]
+    ctx.cov["transitions"] += r2["generated"]
+    behs = small + behs
     bf = ctx.path("behaviours.ndjson")
     with open(bf, "w") as f:
         for b in behs:
